@@ -1,6 +1,7 @@
 import AndaVerif.Model.KmlExec
 import AndaVerif.Model.KmlSafe
 import AndaVerif.Proofs.KmlGuardBasic
+import AndaVerif.Proofs.KmlExecBasic
 /-
 C16, the part the parser cannot decide: an UPDATE whose target kind is known only at run time.
 Theorems over `Model/KmlExec` (the executor's kind gate, interpreted from tables regenerated from
@@ -9,40 +10,6 @@ Theorems over `Model/KmlExec` (the executor's kind gate, interpreted from tables
 namespace AndaVerif.KmlExec
 
 open AndaVerif.Gen
-
-theorem setFieldsLoop_ok : ∀ (fs : List (String × JsonShape)) (written : List String),
-    setFieldsLoop fs = .ok written → written = fs.map Prod.fst ∧ ∀ f ∈ fs, fieldRule f.1 f.2 = "ok" := by
-  intro fs
-  induction fs with
-  | nil => intro w h; simp [setFieldsLoop] at h; subst h; simp
-  | cons x xs ih =>
-    obtain ⟨f, s⟩ := x
-    intro w h
-    simp only [setFieldsLoop] at h
-    split at h
-    · rename_i hok
-      split at h
-      · cases h
-      · rename_i ws hws
-        cases h
-        obtain ⟨i1, i2⟩ := ih ws hws
-        refine ⟨by simp [i1], ?_⟩
-        intro g hg
-        rcases List.mem_cons.mp hg with rfl | hg
-        · exact hok
-        · exact i2 g hg
-    · cases h
-
-theorem fieldRule_ok_writable {f : String} {s : JsonShape} (h : fieldRule f s = "ok") : f ∈ writableCore := by
-  unfold fieldRule at h
-  split at h
-  · rename_i a ha
-    have hm := List.mem_of_find?_eq_some ha
-    have hp := List.find?_some ha
-    simp only [decide_eq_true_eq] at hp
-    simp only [writableCore, List.mem_map, List.mem_filter, decide_eq_true_eq]
-    exact ⟨a, ⟨hm, h⟩, hp.1⟩
-  · exact absurd h (by decide)
 
 /-- **Run-time kind gate.** Whatever the kind of the element an UPDATE reaches, an action that is
 not refused by `apply_action` touches: Core fields only on a kind of `fieldsKinds` (= Concept) and
